@@ -173,7 +173,15 @@ func main() {
 	missing := false
 	// small harnesses first, and no single harness may hold the whole pool while
 	// others are waiting
-	sort.SliceStable(sel, func(i, j int) bool { return sel[i].Workers < sel[j].Workers })
+	// in the thorough tier the quick harnesses run first, so that a deep harness that uses up
+	// the time limit cannot starve them
+	sort.SliceStable(sel, func(i, j int) bool {
+		ti, tj := sel[i].Tier == "thorough", sel[j].Tier == "thorough"
+		if ti != tj {
+			return tj
+		}
+		return sel[i].Workers < sel[j].Workers
+	})
 	for hi, h := range sel {
 		pkg := pkgs[h.PkgRel]
 		if pkg == nil {
